@@ -515,7 +515,26 @@ def plan_c02(K, ctx):
     }
 
 
+# ------------------------------------------------------------------------------------------------ beyond the listed properties
+def plan_x01(K, ctx):
+    """M9: NarseseOptions (not one of the 17 properties; specification growth, DESIGN §10)"""
+    depth = 3 if ctx.tier == "quick" else 4
+    cfg = ("SPECIFICATION Spec\n" + consts(DEPTH=depth) + "INVARIANT Emit\nINVARIANT NeverCreates\nPROPERTY PredicatesPure\nPROPERTY FailedTakeTakesNothing\nCHECK_DEADLOCK FALSE\n")
+    K.pipeline(ctx, "ascii", "x01", "MC_X01", cfg, "J_X01", lambda c: len(set(c["ops"])) > 1, workers=8, shards=3)
+    cfg2 = "SPECIFICATION Spec\nINVARIANT Emit\nCHECK_DEADLOCK FALSE\n"
+    K.parallel([(lambda f=f: K.pipeline(ctx, f, "x02", "MC_X02", cfg2, "J_X01", lambda c: len(c["truth"]) + len(c["budget"]) > 0, workers=4, shards=2)) for f in K.FORMATS])
+    return {
+        "note": f"Options.tla (M9): all operation sequences of length {depth} over the 11 public operations of NarseseOptions from all 32 slot sets, "
+                "invariants NeverCreates / PredicatesPure / FailedTakeTakesNothing, every behaviour replayed on the real struct. Parts: every "
+                "truth x budget x stamp x punctuation of a small envelope formatted and parsed on its own in all formats, folded from lexical "
+                "lists, Truth setters.",
+        "rule": "one case = (slot set, operation sequence) or (truth, budget, stamp, punctuation, format)",
+        "assumptions": TRUSTED,
+    }
+
+
 PLANS = {
+    "X01": plan_x01,
     "C01": plan_c01,
     "C02": plan_c02,
     "C03": plan_c03,
@@ -537,7 +556,7 @@ PLANS = {
 
 
 # ------------------------------------------------------------------------------------------------ replay / selftest
-JUDGE_OF = {"C02": "J_C02", "C03": "J_Pipe", "C15": "J_C15", "C11": "J_C11", "C16": "J_C16", "C06": "J_C06", "C07": "J_C06", "C04": "J_Garbage", "C05": "J_Garbage", "C12": "J_Garbage", "C08": "J_C08", "C09": "J_Pipe", "C10": "J_Pipe", "C01": "J_C01", "C17": "J_C17", "C14": "J_C14", "C13": "J_C13"}
+JUDGE_OF = {"X01": "J_X01", "C02": "J_C02", "C03": "J_Pipe", "C15": "J_C15", "C11": "J_C11", "C16": "J_C16", "C06": "J_C06", "C07": "J_C06", "C04": "J_Garbage", "C05": "J_Garbage", "C12": "J_Garbage", "C08": "J_C08", "C09": "J_Pipe", "C10": "J_Pipe", "C01": "J_C01", "C17": "J_C17", "C14": "J_C14", "C13": "J_C13"}
 
 
 def replay(K, pid, path, seed):
